@@ -53,6 +53,7 @@ from typing import Any, Dict, List, Optional
 
 import lazy_object_proxy
 
+from hippolyzer.lib.base.objects import Object
 from hippolyzer.lib.base.templates import PCode
 from hippolyzer.lib.client.object_manager import ObjectUpdateType
 from hippolyzer.lib.proxy.vocache import ViewerObjectCacheEntry
@@ -71,6 +72,13 @@ MAX_PENDING = 2             # bound on simultaneously pending request futures (s
 SETTINGS = {"USE_VIEWER_OBJECT_CACHE": True, "AUTOMATICALLY_REQUEST_MISSING_OBJECTS": True}
 DEV_TAGS = {"reparent", "relocal", "move", "return", "late", "unknown", "orphanholder", "multi", "limbo",
             "vohit-clobber", "vohit-dup"}
+
+PROFILES = {
+    # sub-alphabets: "graph" = scene-graph events only (small auxiliary state, searched deep);
+    # "full" = everything (requests, properties, terse/cached updates, debounce timer)
+    "graph": {"A", "K", "KM", "TD", "RT"},
+    "full": {"A", "T", "C", "P", "PF", "K", "KM", "RQ", "RP", "TD", "RT", "TICK"},
+}
 
 HANDLER = {
     "A0": "ClientWorldObjectManager._handle_object_update",
@@ -226,8 +234,10 @@ def _core(ev):
 class Harness:
     copyable = False
 
-    def __init__(self, nreg: int):
+    def __init__(self, nreg: int, profile: str = "full"):
         self.nreg = nreg
+        self.profile = profile
+        self.kinds = PROFILES[profile]
 
     def fresh(self) -> World:
         return World(self.nreg)
@@ -244,6 +254,9 @@ class Harness:
         return n
 
     def enabled(self, w: World):
+        return [e for e in self._menu(w) if e[0] in self.kinds]
+
+    def _menu(self, w: World):
         m = w.ref
         evs: List[tuple] = []
         pending = self._pending(w)
@@ -293,10 +306,15 @@ class Harness:
                 evs.append(("C", r, 1, 1, "late"))
                 evs.append(("K", r, 1, "late"))
                 evs.append(("RT", r, "-"))
+        unknown_done = False
         for f in range(NF):
             tag = "known" if f in m.objs else ("limbo" if f in m.limbo else "unknown")
+            if tag == "unknown":
+                if unknown_done:
+                    continue      # properties for an unknown object are dropped at once: one representative
+                unknown_done = True
             evs.append(("P", f, tag))
-            if f == 1:
+            if f == 1 and tag != "unknown":
                 evs.append(("PF", f, tag))
         if w.lw.loop.pending_timers():
             evs.append(("TICK", "-"))
@@ -413,6 +431,8 @@ class Harness:
             w.violations.append({"clause": clause, "site": site_, "detail": f"event {list(ev)}: {detail}"})
 
         sess = lw.session.objects
+        n0 = len(w.violations)
+        link_checks: List[Any] = []
         for r in range(self.nreg):
             region = lw.regions[r]
             st = region.objects.state
@@ -444,19 +464,10 @@ class Harness:
                         f"region {r} local {l}: model F{f} parent {mo['p']}; object has FullID={o.FullID} "
                         f"LocalID={o.LocalID} ParentID={o.ParentID} RegionHandle={o.RegionHandle}")
                     continue
-                self._check_links(w, r, l, o, bad, site)
+                link_checks.append((r, l, o))
             extra = sorted(set(st.localid_lookup) - set(range(1, NL + 1)))
             if extra or len(region.objects) != len([1 for o in m.objs.values() if o["r"] == r]):
                 bad("local-index-vs-model", site, f"region {r}: localid_lookup keys {sorted(st.localid_lookup)}")
-            # -- orphan table holds nothing else
-            for parent, lst in sorted(st._orphans.items()):
-                for l in lst:
-                    f = m.at(r, l)
-                    if f is None or m.objs[f]["p"] != parent or m.at(r, parent) is not None or lst.count(l) != 1:
-                        bad("orphans-exact", site,
-                            f"region {r}: _orphans[{parent}]={lst} but model says local {l} is "
-                            f"{'not tracked' if f is None else 'F%d with parent %d' % (f, m.objs[f]['p'])}"
-                            f"{', and the parent is tracked' if m.at(r, parent) is not None else ''}")
         # -- full-ID index against the model, and agreement of the two lookups
         for f in range(NF):
             so = sess.lookup_fullid(wh.FULLS[f])
@@ -485,6 +496,23 @@ class Harness:
             n_all = len(list(sess.all_objects))
             if n_all != len(m.objs) or len(sess) != len(m.objs):
                 bad("full-index-vs-model", site, f"session tracks {n_all} objects, model {len(m.objs)}")
+        if len(w.violations) > n0:
+            return      # the set of tracked objects is already wrong: link/orphan/future findings would be consequences
+        # -- parent/child links and the orphan table
+        for r, l, o in link_checks:
+            self._check_links(w, r, l, o, bad, site)
+        for r in range(self.nreg):
+            if not m.tracked[r]:
+                continue
+            st = lw.regions[r].objects.state
+            for parent, lst in sorted(st._orphans.items()):
+                for l in lst:
+                    f = m.at(r, l)
+                    if f is None or m.objs[f]["p"] != parent or m.at(r, parent) is not None or lst.count(l) != 1:
+                        bad("orphans-exact", site,
+                            f"region {r}: _orphans[{parent}]={lst} but model says local {l} is "
+                            f"{'not tracked' if f is None else 'F%d with parent %d' % (f, m.objs[f]['p'])}"
+                            f"{', and the parent is tracked' if m.at(r, parent) is not None else ''}")
         # -- avatar view (lookup by full ID through all_avatars)
         if AV not in m.limbo:
             avs = [a for a in sess.all_avatars if a.Object is not None]
@@ -503,12 +531,12 @@ class Harness:
         if "tracked_now" in exp:
             r, l = exp["tracked_now"]
             if l in lw.regions[r].objects.state.missing_locals:
-                bad("missing-cleared-on-track", "RegionObjectsState.track_object",
+                bad("missing-cleared-on-track", site,
                     f"local {l} of region {r} was just announced but is still in missing_locals")
         if "orphan_parent" in exp:
             r, p = exp["orphan_parent"]
             if p not in lw.regions[r].objects.state.missing_locals:
-                bad("orphan-parent-missing", "RegionObjectsState._parent_object",
+                bad("orphan-parent-missing", site,
                     f"an object was announced with unknown parent {p} in region {r} but {p} is not in missing_locals")
         # -- request futures
         for r, l, clause in exp.get("must_done", ()):
@@ -625,6 +653,9 @@ class Harness:
                 tuple(sorted((x["r"], x["l"], x["t"]) for x in w.futs)), bool(w.violations))
 
 
+_SIG_FIELDS = tuple(k for k in Object.__fields__ if k not in ('Parent', 'Children'))
+
+
 def _obj_sig(o):
     """Every non-lazy field of the tracked Object (lazy TextureEntry proxies compare by identity in update_properties,
     so their content cannot influence a later transition)."""
@@ -636,8 +667,19 @@ def _obj_sig(o):
         par = None if o.Parent is None else o.Parent.LocalID
     except ReferenceError:
         par = "DEAD"
-    d = o.to_dict()
-    fields = tuple((k, repr(v)) for k, v in sorted(d.items()) if not isinstance(v, lazy_object_proxy.Proxy))
+    fields = []
+    for k in _SIG_FIELDS:
+        v = getattr(o, k)
+        t = type(v)
+        if v is None or t is int or t is str or t is bytes or t is float:
+            fields.append(v)
+        elif isinstance(v, int):            # IntEnum / IntFlag: repr() of a flag set is slow
+            fields.append(int(v))
+        elif isinstance(v, lazy_object_proxy.Proxy):
+            fields.append("~")
+        else:
+            fields.append(repr(v))
+    fields = tuple(fields)
     return (fields, kids, par)
 
 
@@ -684,9 +726,9 @@ def _minimise(h: Harness, history, clause: str, site: str):
 
 
 BOUNDS = {
-    # tier: [(regions, depth, deviation bound)]
-    "quick": [(1, 4, 2), (2, 3, 2)],
-    "thorough": [(1, 6, 3), (2, 5, 3)],
+    # tier: [(profile, regions, depth, deviation bound)]
+    "quick": [("graph", 1, 4, 2), ("graph", 2, 4, 2), ("full", 1, 4, 2), ("full", 2, 3, 2)],
+    "thorough": [("graph", 1, 6, 3), ("graph", 2, 6, 3), ("full", 1, 5, 3), ("full", 2, 4, 3)],
 }
 
 
@@ -714,24 +756,26 @@ def run(run: Run):
     ]
     bounds = BOUNDS[run.tier]
     if os.environ.get("C14_BOUNDS"):      # development aid: "regions:depth:dev,..." (never set by ./check users)
-        bounds = [tuple(int(x) for x in b.split(":")) for b in os.environ["C14_BOUNDS"].split(",")]
+        bounds = [(b.split(":")[0],) + tuple(int(x) for x in b.split(":")[1:])
+                  for b in os.environ["C14_BOUNDS"].split(",")]
         run.cap("C14_BOUNDS override in effect")
-    for nreg, depth, devb in bounds:
-        h = Harness(nreg)
-        info = explore.bfs(run, h, depth=depth, dev_bound=devb, label=f"regions={nreg} ")
+    for profile, nreg, depth, devb in bounds:
+        h = Harness(nreg, profile)
+        info = explore.bfs(run, h, depth=depth, dev_bound=devb, label=f"{profile}/regions={nreg} ")
         info["transitions_per_s"] = round(info["transitions"] / max(info["wall_s"], 1e-9))
         for v in run.violations:
             if isinstance(v["witness"], dict) and "regions" not in v["witness"]:
                 v["witness"]["regions"] = nreg
-    run.coverage_extra["bounds"] = [{"regions": a, "depth": b, "deviation_bound": c} for a, b, c in bounds]
+                v["witness"]["profile"] = profile
+    run.coverage_extra["bounds"] = [{"profile": _p, "regions": a, "depth": b, "deviation_bound": c} for _p, a, b, c in bounds]
     for v in run.violations:
         wit = v["witness"]
         try:
-            wit["history"] = _minimise(Harness(int(wit["regions"])), wit["history"], v["clause"], v["site"])
+            wit["history"] = _minimise(Harness(int(wit["regions"]), wit.get("profile", "full")), wit["history"], v["clause"], v["site"])
         except Exception as e:  # best effort
             run.notes.append(f"minimise failed for {v['clause']}@{v['site']}: {e!r}")
 
 
 def replay(witness):
-    h = Harness(int(witness.get("regions", 2)))
+    h = Harness(int(witness.get("regions", 2)), witness.get("profile", "full"))
     return explore.replay_history(h, witness["history"])
